@@ -251,6 +251,22 @@ extern "C" int LLVMFuzzerTestOneInput(const uint8_t* data, size_t size) {
     stats_class("ctor:" + std::to_string(p.ctor));
     for (int a : p.api) stats_class("api:" + std::to_string(a));
     stats_class(std::string("body:") + (want.empty() ? "empty" : p.has_h ? "with-fd" : want[0].depth() > 10 ? "deep" : "ordinary"));
+    // (3b) the built message itself answers like its own marshalled form: accessors and iterator of the live object (and of a copy)
+    //      against the oracle's decoding of the bytes ('h' values are compared as indices by diff_msgs)
+    {
+      Msg lm; std::string w2;
+      if (!lib_to_msg(m, lm, &w2)) fail("readback-inconsistent", p, "live message: " + w2, bytes);
+      std::string d = diff_msgs(lm, dec);
+      if (!d.empty()) fail("built-message-accessors-differ", p, "the built message read through its accessors/iterator differs from its own marshalled form: " + d, bytes);
+      DBusMessage* cpy = dbus_message_copy(m);
+      if (cpy) {
+        Msg lc; if (!lib_to_msg(cpy, lc, &w2)) fail("readback-inconsistent", p, "copy: " + w2, bytes);
+        Msg dc = dec; dc.serial = 0;   // [D dbus_message_copy] the copy's serial is 0
+        std::string d2 = diff_msgs(lc, dc);
+        if (!d2.empty()) fail("copy-differs", p, "dbus_message_copy read through its accessors differs from the original: " + d2, bytes);
+        dbus_message_unref(cpy);
+      }
+    }
     if (!p.has_h) {
       // (4) demarshal + walk + re-marshal
       char* cp = (char*)aligned_alloc(8, (bytes.size() + 8) & ~(size_t)7); memcpy(cp, bytes.data(), bytes.size());
